@@ -14,16 +14,19 @@ from . import core
 PROP = 'C12'
 LEVEL = 'exploration'
 STEP_UNIT = 'producer pulls (successful next()/index productions)'
+CHUNK = 256      # consecutive runs per forked child (core.worker)
 CASE_TIMEOUT = 60
 TIERS = {'quick': (300000, 150), 'thorough': (4000000, 1800)}
 PROBES = ['rendered_before_with_other_parameters', 'guard_refused_element',
           'sized_iterable_producer', 'false_reverse_expr',
           'previous_batches_evaluated', 'unbounded_rendered', 'fault_fired', 'window_past_end',
           'lookahead_probe_reached', 'else_rendered', 'prev_lookback_overpull',
-          'lazyseq_len_called', 'start_beyond_stream', 'prev_flag', 'next_flag']
+          'lazyseq_len_called', 'start_beyond_stream', 'prev_flag', 'next_flag',
+          'no_push_item', 'body_names_the_sequence_again']
 RULE = ('seeded sampling of (start,end in -1..16; size -1..7; orphan 0..4; '
         'overlap 0..3; literal or via variable; previous/next flag; item '
-        'kind; name or expr source) x producer (generator, generator '
+        'kind; name or expr source; no_push_item; unbatched loops whose body '
+        'loops over the same name again) x producer (generator, generator '
         'function, iterator, iterable-only object, memoising lazy sequence; '
         'length 0..14 or unbounded; optional failure at pull k).  A case is '
         'non-trivial when the producer holds more elements than the bound '
@@ -54,7 +57,9 @@ class EA(Exception):
 class Counter:
     def __init__(self, n, fail_at, cap):
         self.n, self.fail_at, self.cap = n, fail_at, cap
-        self.pulls = 0        # successful productions
+        self.pulls = 0        # successful productions, over all passes
+        self.pos = 0          # next element of the current pass
+        self.passes = 0
         self.attempts = 0
         self.fault_fired = 0
         self.len_called = 0
@@ -71,14 +76,23 @@ class Counter:
         if self.fail_at is not None and self.attempts == self.fail_at:
             self.fault_fired += 1
             raise EA('producer failed at pull %d' % self.attempts)
-        if self.n is not None and self.pulls >= self.n:
+        if self.n is not None and self.pos >= self.n:
             self.eof_seen += 1
             return StopIteration
         if self.pulls >= self.cap:
             raise StreamOverrun('pulled %d elements' % (self.pulls + 1))
-        i = self.pulls
+        i = self.pos
+        self.pos += 1
         self.pulls += 1
         return mk(i)
+
+    def restart(self):
+        """a re-iterable source (a query object, a dictionary view, a
+        function returning a fresh generator) starts again at the first
+        element every time it is asked for an iterator; the pull count goes
+        on"""
+        self.passes += 1
+        self.pos = 0
 
 
 class Obj:
@@ -118,6 +132,7 @@ class IterableOnly:
         self.c, self.mk = c, mk
 
     def __iter__(self):
+        self.c.restart()
         return Iter(self.c, self.mk)
 
 
@@ -223,6 +238,17 @@ def gen_case(seed, tier):
     if byname and 'overlap' not in case['params'] and r.random() < 0.4:
         case['pre'] = {p: max(case['params'][p][1], 0) + r.randint(3, 9)
                        for p in byname}
+    # no_push_item, and a body that names the sequence again (a nested loop
+    # over the same lazily produced sequence): the elements are still pulled
+    # once only
+    case['npi'] = r.random() < 0.15
+    if case['npi']:
+        case['items'] = 'str'
+    case['renest'] = None
+    want_renest = not batched and case['src'] == 'name' and \
+        r.random() < 0.3 and r.choice(['plain', 'npi', 'npi'])
+    if want_renest and n is not None and n <= 40:
+        case['renest'] = want_renest       # (n*n inner iterations)
     # a security guard that refuses some elements (fault kind guard.deny)
     case['guard'] = None
     if r.random() < 0.12:
@@ -249,6 +275,8 @@ def source_of(case):
         a.append('reverse_expr="rv0"')
     if case.get('guard') and case['guard']['skip']:
         a.append('skip_unauthorized')
+    if case.get('npi'):
+        a.append('no_push_item')
     kind = case['items']
     if case['flag'] == 'previous':
         body = ('P<dtml-var previous-sequence-start-index>-'
@@ -292,6 +320,11 @@ def source_of(case):
                      '<dtml-var next-sequence-start-index></dtml-if>')
         body += '<dtml-if sequence-start>s</dtml-if>' \
                 '<dtml-if sequence-end>e</dtml-if>'
+        if case.get('renest'):
+            body += '<dtml-in seq prefix=q%s%s>.</dtml-in>' % (
+                ' no_push_item' if case['renest'] == 'npi' else '',
+                ' skip_unauthorized' if case.get('guard') and
+                case['guard']['skip'] else '')
     src = '<dtml-in %s>%s' % (' '.join(a), body)
     if case['else']:
         src += '<dtml-else>EMPTY'
@@ -339,6 +372,7 @@ def run_case(case):
         seq = gen(c, mk)
     elif kind == 'genfunc':
         def seq():
+            c.restart()
             return gen(c, mk)
     elif kind == 'iter':
         seq = Iter(c, mk)
@@ -423,6 +457,12 @@ def run_case(case):
         probe(case['flag'][:4] + '_flag')
     if kind == 'sized':
         probe('sized_iterable_producer')
+    if case.get('npi'):
+        probe('no_push_item')
+    if case.get('renest'):
+        probe('body_names_the_sequence_again')
+    if c.passes > 1:
+        probe('source_asked_for_an_iterator_again')
     if case.get('has_revexpr'):
         probe('false_reverse_expr')
     if ';' in out and re.search(r'b\d+-\d+;', out):
@@ -519,7 +559,7 @@ def shrink(case):
         c = copy.deepcopy(case)
         c['extras'].remove(x)
         yield c
-    for k in ('pre', 'guard'):
+    for k in ('pre', 'guard', 'renest', 'npi'):
         if case.get(k):
             c = copy.deepcopy(case)
             c[k] = None
